@@ -232,8 +232,10 @@ package main
 //@ func plotRun
 //@   property C17 C13
 //@   pragma frame off
+//@   pragma closedheap yes
 //@   returns (err)
 //@   requires [at-least-one-file] len(files) >= 1
+//@   requires [series-invariant] TSINV()
 //@   ghost n int = 0
 //@   ghost interrupted bool = false
 //@   ghost d ref = 0
@@ -246,7 +248,7 @@ package main
 //@   before call WriteTo: assert [written-after-close] closedPlot
 //@   ensures [all-records-plotted-unless-interrupted] err == nil && !interrupted && d != 0 ==> n == dlen(d)
 //@   loop 1
-//@     invariant d != 0 && d == ref(dec) && 0 <= n && n == dpos(d) && n <= dlen(d) && !interrupted && !closedPlot && p != nil && out != nil
+//@     invariant d != 0 && d == ref(dec) && 0 <= n && n == dpos(d) && n <= dlen(d) && !interrupted && !closedPlot && p != nil && out != nil && TSINV()
 
 // ---------------------------------------------------------------------------------- C13 C17 (commands)
 // The command closures: with no file argument the input is stdin, so the decoder always gets at least
